@@ -1,4 +1,5 @@
 import LlirModel.Numbering
+import LlirModel.Core3
 /-! # C08 — Unnamed values are numbered exactly as LLVM numbers them (property theorems only) -/
 namespace Llir.Props.C08
 open Llir Llir.Numbering
@@ -165,5 +166,19 @@ theorem print_parsed_never_fails (ents : List GEnt) :
 
 /-- the witness that used to fail: an unnamed function textually before an unnamed global variable -/
 example : printParsed [⟨.func, false⟩, ⟨.global, false⟩] = .ok [⟨false, 0, true⟩, ⟨false, 1, true⟩] := by decide
+
+/-! ## M-Core-3: the numbering rule on real function bodies -/
+
+/-- the translation of a function body succeeds only when its explicit IDs (parameters, block labels, instruction and terminator results, in
+    LLVM's order) are the numbers LLVM gives them -/
+theorem core3_accepts_only_llvm_numbering (f g : Core3.Func) (h : Core3.translate f = some g) :
+    LLVMSpec.agreesFrom 0 (Core3.slotsOf f) = true := by
+  unfold Core3.translate at h
+  have hp := parser_accepts_exactly_llvm (Core3.slotsOf f) 0
+  unfold parseAssign at h
+  rw [hp] at h
+  by_cases ha : LLVMSpec.agreesFrom 0 (Core3.slotsOf f) = true
+  · exact ha
+  · simp [ha] at h
 
 end Llir.Props.C08
